@@ -34,7 +34,24 @@ type inst struct {
 }
 
 func (i *inst) String() string {
+	if i.sh.ReadN != 0 {
+		return fmt.Sprintf("%s:%d:%d:%d:%d %s", i.op.Name, i.v, i.sh.Offset, i.sh.HWM, i.sh.ReadN, gen.Hex(i.body))
+	}
 	return fmt.Sprintf("%s:%d:%d:%d %s", i.op.Name, i.v, i.sh.Offset, i.sh.HWM, gen.Hex(i.body))
+}
+
+// buildFetch renders a fetch response with a record set of the given physical layout; readN as in connfake.Shape.
+func buildFetch(r *rand.Rand, v int16, magic int8, n, batches int, codec protocol.Attributes, readN int) *inst {
+	op := connfake.OpByName("fetch")
+	sh := &connfake.Shape{Topic: topic, Offset: int64(r.Intn(50)), ReadN: readN}
+	set, msgs, base, err := connfake.RecordSet(r, magic, sh.Offset, n, batches, codec)
+	if err != nil {
+		panic(err)
+	}
+	sh.Offset, sh.Set, sh.Want, sh.HWM = base, set, msgs, base+int64(n)
+	w := &connfake.W{}
+	op.Build(v, w, r, sh)
+	return &inst{op, v, w.B, sh}
 }
 
 // build renders a response body for op at version v with the given error codes placed in its error fields.
@@ -148,6 +165,29 @@ func scenario(a, b *inst) (line string, slow bool) {
 	}
 	impl := fmt.Sprintf("%s %s %s %s", resA, unread, resB, same)
 	return fmt.Sprintf("c11 %s %s %s\t%s", gen.Hex([]byte(topic)), a, b, impl), time.Since(t0) > time.Second
+}
+
+// chain: A is answered with a response carrying a foreign correlation id, then B and C on the same Conn.
+//
+//	c11x <topic hex> <id delta> <A> <bodyA> <B> <bodyB> <C> <bodyC>\t<resA> <resB> <resC>
+func chain(a, b, c *inst, delta int32) (line string, slow bool) {
+	sel := map[int16]int16{c.op.Key: c.v}
+	sel[b.op.Key] = b.v
+	sel[a.op.Key] = a.v
+	t0 := time.Now()
+	conn, br := connfake.Start(topic, connfake.VersionTable(sel))
+	br.Push(a.op.Key, connfake.Resp{Body: a.body, Cut: -1, IDDelta: delta})
+	br.Push(b.op.Key, connfake.Resp{Body: b.body, Cut: -1})
+	br.Push(c.op.Key, connfake.Resp{Body: c.body, Cut: -1})
+	res := []string{"hang", "hang", "hang"}
+	for i, x := range []*inst{a, b, c} {
+		res[i], _ = guarded(conn, x)
+		if res[i] == "hang" {
+			break
+		}
+	}
+	go func() { conn.Close(); br.Stop() }()
+	return fmt.Sprintf("c11x %s %d %s %s %s\t%s %s %s", gen.Hex([]byte(topic)), delta, a, b, c, res[0], res[1], res[2]), time.Since(t0) > time.Second
 }
 
 var codes = []int16{1, 3, 5, 6, 7, 9, 14, 15, 16, 19, 20, 22, 25, 27, 29, 36, 41, -1, 87, 32767, -32768}
@@ -281,6 +321,52 @@ func main() {
 			}
 		}
 	}
+	// partial reads: read j of the n records of a fetch response (every j, and Close at once), then Close, then the next
+	// operation — plain and every codec, one batch and two batches, message formats 1 and 2.  Batch.Close must leave
+	// the Conn at the next frame whatever was read (Conn.ReadMessage / Conn.Read read exactly one record).
+	type layout struct {
+		magic      int8
+		n, batches int
+	}
+	for _, v := range connfake.OpByName("fetch").Versions {
+		for codec := protocol.Attributes(0); codec <= 4; codec++ {
+			for _, l := range []layout{{2, 3, 1}, {2, 5, 2}, {1, 3, 1}} {
+				if (l.magic == 2 && v < 4) || (l.magic == 1 && codec > 2) {
+					continue
+				}
+				for j := -1; j <= l.n; j++ {
+					if j == 0 {
+						continue
+					}
+					a := buildFetch(r, v, l.magic, l.n, l.batches, codec, j)
+					emit(a, follower(a))
+				}
+			}
+		}
+	}
+	// a response nobody asked for (foreign correlation id) is a framing error that does NOT close the Conn
+	// (io.ErrNoProgress, nothing consumed): every later operation must fail too — promptly.  Three operations in a row.
+	nchain := 0
+	for _, op := range connfake.Ops {
+		if op.Name == "apiVersions" || op.Name == "fetch" || nslow >= 5 {
+			continue
+		}
+		for _, v := range op.Versions {
+			a, _ := build(r, op, v, nil, false)
+			b := follower(a)
+			c := follower(a)
+			for c.op.Key == b.op.Key && c.v != b.v {
+				c = follower(a)
+			}
+			l, slow := chain(a, b, c, int32(1+r.Intn(9)))
+			fmt.Fprintln(out, l)
+			nchain++
+			if slow {
+				nslow++
+			}
+		}
+	}
 	out.Flush()
+	fmt.Fprintf(os.Stderr, "c11 driver: %d three-operation chains after a foreign correlation id\n", nchain)
 	fmt.Fprintf(os.Stderr, "c11 driver: %d cases, %d slower than 1s (generation stops at 5)\n", ncases, nslow)
 }
